@@ -190,6 +190,29 @@ def build(rng, n, edges, deg, kinds_for, extra_subst=0.25, p_isotope=0.04):
     return m, kind_of, set(edges)
 
 
+def union(parts, extra=None):
+    """Disjoint union of (mol, kind_of, arom_edges) triples (plus optional saturated GMols): a multi-fragment molecule."""
+    m = GMol()
+    kind_of, ae = [], set()
+    for (pm, pk, pe) in parts:
+        off = len(m.atoms)
+        for i, a in enumerate(pm.atoms):
+            m.add_atom(GAtom(a.element, isotope=a.isotope, hcount=a.hcount, charge=a.charge, aromatic=a.aromatic, kind=a.kind))
+            kind_of.append(pk[i] if i < len(pk) else None)
+        for (x, y), o in pm.bonds.items():
+            m.add_bond(x + off, y + off, o)
+        for (x, y) in pe:
+            ae.add((x + off, y + off))
+    for g in (extra or []):
+        off = len(m.atoms)
+        for a in g.atoms:
+            m.add_atom(GAtom(a.element, isotope=a.isotope, hcount=a.hcount, charge=a.charge))
+            kind_of.append(None)
+        for (x, y), o in g.bonds.items():
+            m.add_bond(x + off, y + off, o)
+    return m, kind_of, ae
+
+
 def poly_aryl(rng, n_aryl=None, core_sizes=(5, 6, 6), aryl_sizes=(6,)):
     """A core ring carrying several aryl rings, joined by bonds written implicitly between two aromatic atoms.  Such a
     bond is an aromatic (order 1.5) edge for the encoder and for the independent reader alike, so the pi-graph is
